@@ -8,7 +8,10 @@ CHECK = {
                   "ulp-level alphabet ({1, 1+ulp, 1.5, 2-ulp} and sub/super-sets) to all 12 (orientation) or 15 "
                   "(in-sphere) coordinates, and on every 4/5-subset of cube corners and octahedron vertices with "
                   "every coordinate moved by every k = +-1..1000 ulp (plus a ladder 2^j ulp that crosses the "
-                  "1e-10 filter threshold). Each result is compared with the sign of the exact determinant "
+                  "1e-10 filter threshold), and on generic full-mantissa families (deterministic Weyl sequences, no "
+                  "RNG): fourth point on the plane / fifth point on the circumsphere of generic points (binary128, "
+                  "rounded) with every coordinate moved by -4..4 ulp, so that the double evaluation inside the "
+                  "filter really rounds. Each result is compared with the sign of the exact determinant "
                   "computed in boost cpp_int from frexp-decoded integers in a different formulation "
                   "(untranslated homogeneous 4x4 / lifted 5x5 determinant, first-row expansion); adaptive must "
                   "equal exact on every input; all 24/120 point permutations must flip or keep the sign. Part "
@@ -18,7 +21,8 @@ CHECK = {
     "level_note": "Exhaustive over the listed alphabets and families, nothing is claimed for other coordinates. "
                   "Coordinates are restricted to the normalised range [1,2) the predicates are specified for. "
                   "Quick: orientation 4^12 (contains the 3^12 sub-alphabets), in-sphere 3 x 2^15 + 3^15, families "
-                  "with k = +-1..32 and a ladder; thorough adds orientation {1,1.5,1.5+ulp,2-ulp} (4^12) and "
+                  "with k = +-1..32 and a ladder, 1.1 M generic near-coplanar and 1.0 M generic near-cospherical "
+                  "inputs; thorough (4.6 M + 4.3 M generic inputs) adds orientation {1,1.5,1.5+ulp,2-ulp} (4^12) and "
                   "{1,1+ulp,1.5,1.5+ulp,2-ulp} (5^12), four more in-sphere 3^15 alphabets, every k = +-1..1000 and "
                   "two more shapes.",
     "quick_deadline": 90,
